@@ -52,6 +52,10 @@ func runC04(e *Env) error {
 	if err := c04PositionCases(e); err != nil {
 		return err
 	}
+	// (k) a tag that closes a block where no block is open is a parse error, never the silent end of the template (c04_stray.go)
+	if err := c04StrayTags(e); err != nil {
+		return err
+	}
 	// (b)+(c) chunks, print tags, comments
 	n = e.N(1200, 60000)
 	for i := 0; i < n && !r.Full(); i++ {
